@@ -467,6 +467,22 @@ def D_logical(f):
     return pend if present is True else If(present, pend, f["g_S"])
 
 
+# Gauge (canonical-centre) analysis.  Property C11 speaks about evolution WITHOUT truncation, where an off-centre split is
+# exact; where the orthogonality centre sits therefore only matters for the imaginary-time renormalisation ("returns
+# the normalized product formula").  The mpsghost machinery is consequently switched on only for imag=True (it is what
+# proves / refutes `renorm@L:renormalised site is the orthogonality centre`).  VERIF_C11_GAUGE=1 re-enables the full
+# informational analysis (every gate_split_ on the centre, sweeps alternate): with it, step / update_to-final-step /
+# at_times show consecutive same-direction sweeps whose gates are split off-centre (quality of truncation, not C11).
+import os  # noqa: E402
+
+GAUGE_ALL = os.environ.get("VERIF_C11_GAUGE") == "1"
+
+
+def gauge_on(f):
+    """are quantified gauge facts tracked (and obliged) for this TEBD object"""
+    return (not f["cyclic"]) and (GAUGE_ALL or bool(f["imag"]))
+
+
 def gauge_pre(cx, mps, d):
     """canonical form a sweep of direction d needs on entry (open chains): right: centre in {0,1}; left: centre >= L-2"""
     f = cx.fields(mps)
@@ -500,9 +516,9 @@ def perform(cx, ref, d, frac, node, who, quantified=True):
     mps = f["_pt"]
     if not cyclic:
         lab = f"call-pre@{node.lineno}:{who}:gauge: orthogonality centre at the first bond of the {('right', 'left')[d]} sweep"
-        if quantified:
+        if quantified and gauge_on(f):
             cx.oblige(lab, "call-pre", gauge_pre(cx, mps, d), node.lineno)
-        else:
+        elif not quantified and GAUGE_ALL:
             cx.oblige(lab, "call-pre", centre_ok(f["g_centre"], d), node.lineno)
         f["g_centre"] = (1 - d) if (d == 0 or not f["imag"]) else 3
     f["g_S"] = Sw(z3.IntVal(d), R(frac), f["g_S"])
@@ -513,7 +529,7 @@ def perform(cx, ref, d, frac, node, who, quantified=True):
     f["g_amt"], f["g_cnt"] = amt, cnt
     m = cx.fields(mps)
     m["isL"], m["isR"] = cx.Array("isL", z3.IntSort(), z3.BoolSort()), cx.Array("isR", z3.IntSort(), z3.BoolSort())
-    if not cyclic and quantified:
+    if quantified and gauge_on(f):
         if d == 0 or not f["imag"]:
             cx.assume(gauge_post(cx, mps, d))
         else:
@@ -621,7 +637,7 @@ class TEBDContract(SeqMixin, c08.MPSContract):
         f["g_cnt"] = z3.Store(f["g_cnt"], a, z3.Select(f["g_cnt"], a) + 1)
         cx.events.append(("gate", a, U.frac))
         m = cx.fields(mps)
-        if not cyclic:
+        if gauge_on(f):
             cx.oblige(f"call-pre@{line}:gate_split_:gauge: orthogonality centre is on the sites the gate acts on", "call-pre",
                       And(c08.forall_sites(Implies(And(0 <= K, K < a), c08.sel(m["isL"], K))),
                           c08.forall_sites(Implies(And(a + 1 < K, K < L), c08.sel(m["isR"], K)))), line)
@@ -647,7 +663,7 @@ class TEBDContract(SeqMixin, c08.MPSContract):
         L = m["L"]
         f = cx.fields(cx.ghost["self"])
         if not f["cyclic"]:
-            cx.oblige(f"renorm@{line}:gauge: renormalised site is the orthogonality centre", "call-pre",
+            cx.oblige(f"renorm@{line}:renormalised site is the orthogonality centre", "call-pre",
                       And(c08.forall_sites(Implies(And(0 <= K, K < idx), c08.sel(m["isL"], K))),
                           c08.forall_sites(Implies(And(idx < K, K < L), c08.sel(m["isR"], K)))), line)
             m["isL"] = z3.Store(m["isL"], idx, cx.Bool("hv"))
@@ -692,8 +708,10 @@ class Sweep(TEBDContract):
     (b) coverage: a performed right sweep applies exactly one gate of the requested fraction on every even bond
     (incl. (L-1,0) if cyclic and L odd), a left sweep on every odd bond (incl. (L-1,0) if cyclic and L even), in the
     order fixed by RS / LS, and touches no other bond (skolem bond k).
-    (c) gauge (open chains, mpsghost of C08): the orthogonality centre is on the sites of every gate_split_, the sweep
-    ends with the centre at L-1 (right) / 0 (left), imaginary-time renormalisation divides the centre site."""
+    (c) imaginary time (open chains, mpsghost of C08, only for imag=True): the renormalisation divides the orthogonality
+    centre site -- which needs the centre on the sites of every gate_split_ and at L-1 (right) / 0 (left) afterwards.
+    For imag=False no gauge obligation is emitted (C11 is about untruncated evolution; VERIF_C11_GAUGE=1 re-enables the
+    informational analysis)."""
 
     target = f"{TEBDC}.sweep"
     floor = 100
@@ -756,7 +774,7 @@ class Sweep(TEBDContract):
 
     def gauge_reqs(self, cx, a, present, qd):
         f = cx.fields(a.self)
-        if f["cyclic"]:
+        if not gauge_on(f):
             return {}
         performed, _ = self.plan(present, qd, 0, a.queue, DIRS[a.direction], 0)
         if not performed:
@@ -808,9 +826,13 @@ class Sweep(TEBDContract):
         out["coverage: every-bond-of-the-sweep-parity-gets-the-fraction-once, no-other-bond-touched"] = And(
             z3.Select(f["g_amt"], KB) == amt, z3.Select(f["g_cnt"], KB) == cnt)
         # ---- (c) gauge
-        if not cyclic and performed:
-            out["gauge: centre-at-L-1-after-right / 0-after-left"] = gauge_post(cx, f["_pt"], performed[-1][0])
-            if performed[-1][0] == 1:
+        if gauge_on(f) and performed:
+            last = performed[-1][0]
+            if last == 0 or not f["imag"]:
+                out["gauge: centre-at-L-1-after-right / 0-after-left"] = gauge_post(cx, f["_pt"], last)
+            # (imaginary time, left sweep: the centre claim is refuted together with the renorm obligation -- the
+            # division makes site 1 a non-isometry -- so only the part later right sweeps rely on is stated)
+            if last == 1:
                 out["gauge: sites-2..L-1-right-isometric-after-left"] = gauge_pre(cx, f["_pt"], 0)
         if not performed:
             m, mp = cx.fields(f["_pt"]), cx.pre(p["_pt"])
@@ -835,7 +857,7 @@ class Sweep(TEBDContract):
              "coverage": And(
                  z3.Select(f["g_amt"], KB) == z3.Select(g["amt"], KB) + If(And(0 <= KB, KB < i, KB % 2 == 0), fr, 0),
                  z3.Select(f["g_cnt"], KB) == z3.Select(g["cnt"], KB) + If(And(0 <= KB, KB < i, KB % 2 == 0), 1, 0))}
-        if not cyclic:
+        if gauge_on(f):
             m = cx.fields(f["_pt"])
             d["gauge"] = And(c08.forall_sites(Implies(And(0 <= K, K < i - 1), c08.sel(m["isL"], K))),
                              c08.forall_sites(Implies(And(K > i - 1, K > 1, K < L), c08.sel(m["isR"], K))))
@@ -863,7 +885,7 @@ class Sweep(TEBDContract):
              "chain": f["g_S"] == LS(fr, g["S"], t),
              "coverage": And(z3.Select(f["g_amt"], KB) == z3.Select(g["amt"], KB) + If(done, fr, 0),
                              z3.Select(f["g_cnt"], KB) == z3.Select(g["cnt"], KB) + If(done, 1, 0))}
-        if not cyclic:
+        if gauge_on(f):
             m = cx.fields(f["_pt"])
             d["gauge"] = And(c08.forall_sites(Implies(And(K > i + 2, K < L), c08.sel(m["isR"], K))),
                              c08.forall_sites(Implies(And(0 <= K, K < i + 2, K < L - 2), c08.sel(m["isL"], K))))
@@ -1159,7 +1181,7 @@ class Step(TEBDContract):
 
     def gauge_reqs(self, cx, a, present=None, qd=None):
         f = cx.fields(a.self)
-        if f["cyclic"]:
+        if f["cyclic"] or not GAUGE_ALL:
             return {}
         if present is None:
             _, present, qd, _ = get_queue(f)
@@ -1186,7 +1208,7 @@ class Step(TEBDContract):
             out["queue: pending-direction-is-the-schedule's-last"] = d1 == nd
         if not queue:
             out["queue: empty-after-queue=False"] = present1 is False
-        if not f["cyclic"] and performed:
+        if GAUGE_ALL and not f["cyclic"] and performed:
             out["gauge: centre-where-the-last-performed-sweep-leaves-it"] = Z(f["g_centre"]) == 1 - performed[-1][0]
         return out
 
@@ -1285,7 +1307,7 @@ class UpdateTo(TEBDContract):
             d["tolerance-positive"] = R(te) > 0
             if de is None:
                 d["tol-route: target ahead, |H| > 0"] = And(R(a.T) > f["t"], f["_ham_norm"] > 0)
-        if not f["cyclic"]:
+        if GAUGE_ALL and not f["cyclic"]:
             d["gauge: orthogonality centre at site 0 on entry (the first sweep is a right sweep)"] = centre_ok(f["g_centre"], 0)
         return d
 
@@ -1315,7 +1337,7 @@ class UpdateTo(TEBDContract):
              "_dt-fixed-and-positive": And(f["_dt"] == g.dt_used, f["_dt"] > 0),
              "queue: empty-before-the-first-step, else the schedule's last direction pending":
                  If(n == 0, Not(present), And(present, Z(qd) == last))}
-        if not f["cyclic"]:
+        if GAUGE_ALL and not f["cyclic"]:
             # flag: before the first step the centre is where the entry condition says; afterwards where the sweep
             # performed last (the one before the pending one) left it
             d["gauge"] = If(n == 0, centre_ok(f["g_centre"], 0), Z(f["g_centre"]) == last)
@@ -1440,9 +1462,10 @@ class AtTimes(TEBDContract):
         d = {"j<=n": j <= g.n, "one-yield-per-visited-time": Z(f["g_nyield"]) == j,
              "time-is-last-requested": If(j == 0, f["t"] == g.t_entry, f["t"] == z3.Select(g.srt, j - 1)),
              "queue-empty-between-targets": get_queue(f)[1] is False,
-             "step-fixed-for-the-whole-span": f["_dt"] == g.dt_used,
-             # where the previous update_to (whose final step ends with the schedule's last sweep) left the centre
-             "gauge": If(j == 0, centre_ok(f["g_centre"], 0), Z(f["g_centre"]) == 1 - spec_schedule(2, g.order)[-1][0])}
+             "step-fixed-for-the-whole-span": f["_dt"] == g.dt_used}
+        if GAUGE_ALL:
+            # where the previous update_to (whose final step ends with the schedule's last sweep) left the centre
+            d["gauge"] = If(j == 0, centre_ok(f["g_centre"], 0), Z(f["g_centre"]) == 1 - spec_schedule(2, g.order)[-1][0])
         return d
 
     def facts(self, v):
